@@ -147,8 +147,8 @@ AddMember ==
          first == k = 0
          firstOfMerged == first /\ Len(MembersOf(decls, cur.name)) > 0   \* a later declaration of a merged enum must initialise its first member
          room == Total(decls) < MaxTotal
-     IN \/ (* no initialiser: auto-increment (one more is allowed right after the rich member) *)
-           /\ room \/ (rich /\ ~first /\ ~cur.mem[IF k = 0 THEN 1 ELSE k].auto /\ Total(decls) = MaxTotal)
+     IN \/ (* no initialiser: auto-increment (one more member is allowed right after an initialised member) *)
+           /\ room \/ (~first /\ ~cur.mem[IF k = 0 THEN 1 ELSE k].auto /\ Total(decls) = MaxTotal)
            /\ ~firstOfMerged
            /\ (IF first THEN TRUE ELSE cur.mem[k].val.t = "int" /\ Len(cur.mem[k].val.m) <= 52)
            /\ decls' = AddTo(decls, [name |-> NextName(decls), auto |-> TRUE, init |-> <<"lit", 1>>,
